@@ -175,6 +175,10 @@ func Run(a Matrix, args ...interface{}) (Matrix, Matrix, error) {
   if computeU {
     if inSitu.U == nil {
       inSitu.U = NullDenseMatrix(t, m, m)
+    } else {
+      if n1, m1 := inSitu.U.Dims(); n1 != m || m1 != m {
+        return nil, nil, fmt.Errorf("U has invalid dimension (%dx%d instead of %dx%d)", n1, m1, m, m)
+      }
     }
     inSitu.U.SetIdentity()
   } else {
